@@ -181,6 +181,11 @@ func TestC09Aggregate(t *testing.T) {
 					if err != nil {
 						rt.Skip("type refuses a short signature")
 					}
+					if string(bad.Signature()) == string(parts[j].Signature()) {
+						// fixed-size signature fields pad the missing byte with zero: when the honest
+						// signature already ends in a zero byte (1 in 256) nothing was corrupted
+						rt.Skip("truncation left the signature unchanged")
+					}
 					parts[j] = core.ParSignedData{SignedData: bad, ShareIdx: parts[j].ShareIdx}
 				case "overlong":
 					if len(parts) != thr {
